@@ -9,5 +9,5 @@ Emit == (Done /\ EmitJson) => PrintT(ToJson([p |-> p, a |-> a, py |-> PyClass(p,
                                              knownRejected |-> KnownRejected, knownGarbage |-> KnownGarbage]))
 \* the laws WITHOUT the recorded exceptions: TLC refutes them on the model for exactly the recorded classes (design-level counterexamples)
 W1Strict == (Done /\ Judged) => out.t # "raise"
-W2Strict == (Done /\ Judged /\ a \notin {"U", "N", "l0"}) => (out.t = "placed" /\ out.f \in Recoverable)
+W2Strict == (Done /\ Judged /\ a \notin {"U", "N"} /\ ~(a = "l0" /\ p.loc # "multipart")) => (out.t = "placed" /\ out.f \in Recoverable)
 =============================================================================
